@@ -504,6 +504,11 @@ impl<'a> Searcher<'a> {
                     });
                 }
 
+                // LIMIT counts result rows: here one row per group
+                if self.query.limit > 0 {
+                    results.truncate(self.query.limit as usize);
+                }
+
                 results.iter().enumerate().for_each(|(idx, items)| {
                     let mut buf = WritableBuffer::new();
                     if idx > 0 {
